@@ -139,8 +139,71 @@ func init() {
 				})
 			})
 		}
+		// scenarios drawn from the generators of the other pub checks: the lock
+		// automaton is a trace property, so every workload anybody generates
+		// is a workload for it (embedded owned values in reply chains,
+		// multi-actor Accepts, hidden recipients, origin/undo/block cases,
+		// client Update/Delete/Add/Remove/Like, deliveries to nested
+		// collections). A subset also runs under every single fault.
+		nBorrow, nBorrowFault := 60, 6
+		if thorough() {
+			nBorrow, nBorrowFault = 1500, 150
+		}
+		for name, gen := range borrowedGenerators() {
+			name, gen := name, gen
+			for i := 0; i < nBorrow; i++ {
+				i := i
+				jobs = append(jobs, func() {
+					sc := gen(prng.New(r.SeedV, "c09.borrow."+name, i))
+					if sc == nil || len(sc.Requests) == 0 {
+						return
+					}
+					sc.Name = fmt.Sprintf("borrowed:%s#%d", name, i)
+					judge := func(sc *sim.Scenario, res *sim.Result) {
+						r.Eval(1)
+						observeLog(r, res)
+						r.Count("borrowed_runs."+name, 1)
+						for _, e := range res.Log {
+							if e.Kind == "db.Lock" && !e.Injected {
+								r.NonTrivial(fmt.Sprintf("%s|%v", sc.Name, sc.FailAt))
+								break
+							}
+						}
+						reportFindings(r, sc, res, lockMonitor(res))
+					}
+					if i < nBorrowFault {
+						faultSweep(sc, false, judge)
+					} else {
+						judge(sc, sim.Run(sc))
+					}
+				})
+			}
+		}
 		parallel(jobs)
 		return r.Finish()
+	}
+}
+
+// borrowedGenerators exposes the other checks' scenario generators by name.
+func borrowedGenerators() map[string]func(g *prng.R) *sim.Scenario {
+	return map[string]func(g *prng.R) *sim.Scenario{
+		"c02": func(g *prng.R) *sim.Scenario {
+			sc, act := genDeliveryScenario(g)
+			if g.Bool() {
+				sc.Requests = []sim.Request{sim.PostOutboxReq(aliceOut(), withCtx(act))}
+			} else {
+				sc.Requests = []sim.Request{{Kind: "Send", URL: aliceOut(), Body: withCtx(act)}}
+			}
+			return sc
+		},
+		"c03":         func(g *prng.R) *sim.Scenario { return genC03(g).Sc },
+		"c04":         func(g *prng.R) *sim.Scenario { return genC04(g).Sc },
+		"c06.origin":  func(g *prng.R) *sim.Scenario { return genOrigin(g).Sc },
+		"c06.accept":  func(g *prng.R) *sim.Scenario { return genAccept(g).Sc },
+		"c06.undo":    func(g *prng.R) *sim.Scenario { return genUndo(g).Sc },
+		"c06.blocked": func(g *prng.R) *sim.Scenario { return genBlocked(g).Sc },
+		"c16":         func(g *prng.R) *sim.Scenario { return genC16(g).Sc },
+		"c17":         func(g *prng.R) *sim.Scenario { return genC17(g).Sc },
 	}
 }
 
